@@ -143,8 +143,13 @@ func init() {
 	s["net/http.NewRequestWithContext"] = func(in *Interp, fr *frame, a []Value) Value {
 		rt := fr.fn.Signature.Results().At(0).Type().(*types.Pointer).Elem()
 		var cell Value = in.zero(rt)
+		hi := structFieldIndex(rt, "Header")
+		ht := rt.Underlying().(*types.Struct).Field(hi).Type()
+		cell.(Struct)[hi] = &MapV{Typ: ht.Underlying().(*types.Map)}
 		return Tuple{&cell, Iface{}}
 	}
+	s["(net/http.Header).Set"] = func(in *Interp, fr *frame, a []Value) Value { return nil }
+	s["(net/http.Header).Add"] = s["(net/http.Header).Set"]
 	s["net/http.NewRequest"] = s["net/http.NewRequestWithContext"]
 	s["(*net/http.Client).Do"] = func(in *Interp, fr *frame, a []Value) Value {
 		if len(in.env.httpNext) == 0 {
